@@ -16,21 +16,30 @@ type nbCase struct {
 	xmin, xmax any // nil | bool | float64
 }
 
-func (n nbCase) json(id int) []byte {
-	m := M{"op": "normalize", "id": id}
+func (n nbCase) json(id int) []byte { return n.req("normalize", id) }
+
+func (n nbCase) req(op string, id int) []byte {
+	m := M{"op": op, "id": id}
 	if n.min != nil {
-		m["min"] = *n.min
+		m["min"] = core.ExactNumber(*n.min)
 	}
 	if n.max != nil {
-		m["max"] = *n.max
+		m["max"] = core.ExactNumber(*n.max)
 	}
 	if n.xmin != nil {
-		m["xmin"] = n.xmin
+		m["xmin"] = exactAny(n.xmin)
 	}
 	if n.xmax != nil {
-		m["xmax"] = n.xmax
+		m["xmax"] = exactAny(n.xmax)
 	}
 	return core.MustJSON(m)
+}
+
+func exactAny(v any) any {
+	if f, ok := v.(float64); ok {
+		return core.ExactNumber(f)
+	}
+	return v
 }
 
 func fstr(p *float64) string {
@@ -168,16 +177,16 @@ func anyPtr(v any) *any {
 func (n nbCase) schemaKeys(ty string) M {
 	s := M{"type": ty}
 	if n.min != nil {
-		s["minimum"] = *n.min
+		s["minimum"] = core.ExactNumber(*n.min)
 	}
 	if n.max != nil {
-		s["maximum"] = *n.max
+		s["maximum"] = core.ExactNumber(*n.max)
 	}
 	if n.xmin != nil {
-		s["exclusiveMinimum"] = n.xmin
+		s["exclusiveMinimum"] = exactAny(n.xmin)
 	}
 	if n.xmax != nil {
-		s["exclusiveMaximum"] = n.xmax
+		s["exclusiveMaximum"] = exactAny(n.xmax)
 	}
 	return s
 }
